@@ -410,8 +410,24 @@ def reserve_helper(facts):
     cands = [b for b in facts.fn_bodies() if b.kind == "assoc_fn" and b.j.get("output") == "bool" and b.arg_count == 3
              and b.locals[1]["ty"] == "&mut " + HANDLE and b.locals[2]["ty"] == "usize" and b.locals[3]["ty"] == "bool"]
     if len(cands) != 1:
-        raise RuleError("reservation helper (fn(&mut BytesMut, usize, bool) -> bool) not found: %r" % [b.id for b in cands])
+        return None         # reshaped (parameter object, split per representation): judged from the public entry points
     return cands[0]
+
+
+def reserve_roots(facts):
+    """the public entry points of the reservation logic, each with everything it calls inlined (used when the private
+    helper no longer has the recognisable signature): try_reclaim(n) -> bool states the contract itself, reserve(n)
+    covers the allocating paths"""
+    roots = []
+    for name in ("try_reclaim", "reserve"):
+        l = facts.by_id.get("bytes_mut::BytesMut::" + name, [])
+        if len(l) != 1:
+            raise RuleError("BytesMut::%s not found" % name)
+        vs = list(views(facts, l[0], keep_names=("rebuild_vec", "offset_from", "vptr", "release_shared", "is_unique", "get_vec_pos", "set_vec_pos", "kind")))
+        if not vs:
+            raise RuleError("BytesMut::%s calls no reservation helper" % name)
+        roots.append((l[0], vs[-1]))
+    return roots
 
 
 def judged_on_views(res, facts, b0, judge):
@@ -439,6 +455,11 @@ def reclaim_contract(res, facts):
     (re)established: in the bool-returning reservation helper every path that returns false performs no
     state write / byte move before, and every path that returns true reassigns cap."""
     b0 = reserve_helper(facts)
+    if b0 is None:
+        root, view = reserve_roots(facts)[0]            # try_reclaim: its boolean result *is* the contract
+        for (key, ok, text, extra) in reclaim_verdicts(facts, view, root.id):
+            (res.ok if ok else res.bad)(key, root.loc(), text + " (judged at the public entry point, helpers inlined)", **((extra or {}) if not ok else {"nontrivial": True}))
+        return
     judged_on_views(res, facts, b0, lambda v: reclaim_verdicts(facts, v, b0.id))
 
 
@@ -456,12 +477,17 @@ def reclaim_verdicts(facts, b, bid):
     n_false = n_true = 0
     bad_false = bad_true = None
     for path in enumerate_paths(b, limit=5000):
-        # last assignment of a constant to the return place (directly or through the result local of an inlined helper)
+        # the constant returned on this path (read along the path: in an inlined view it travels through result locals)
         val = None
         for bi in path:
             for s_ in b.blocks[bi]["stmts"]:
                 if s_["k"] == "assign" and s_["pl"]["l"] == 0 and not s_["pl"]["p"] and s_["rv"]["k"] == "use" and s_["rv"]["op"]["k"] == "const":
                     val = s_["rv"]["op"].get("v")
+        if val is None:
+            from .flow import PathExprBuilder
+            e = canon(PathExprBuilder(b, facts, path).local(0, (path[-1], len(b.blocks[path[-1]]["stmts"]))))
+            if isinstance(e, tuple) and e and e[0] == "const":
+                val = e[1]
         touched = [x for bi in path for x in wblocks.get(bi, [])]
         if val == 0:
             n_false += 1
@@ -470,7 +496,12 @@ def reclaim_verdicts(facts, b, bid):
         elif val == 1:
             n_true += 1
             if "cap" not in touched and bad_true is None:
-                bad_true = (path, touched)
+                # nothing to re-establish when the path knows additional <= cap - len already (the early return of the entry point)
+                base = ("deref", ("param", 1))
+                from .flow import path_relations
+                ctx = Ctx(b, path[0], facts, extra=path_relations(b, facts, path))
+                if not ctx.le(("param", 2), ("bin", "Sub", ("field", base, "cap"), ("field", base, "len"))):
+                    bad_true = (path, touched)
     key = "%s|false => unchanged" % bid
     if bad_false:
         out.append((key, False, "a path returns false after modifying the handle / moving bytes (%s): try_reclaim must leave address, length and capacity unchanged" % ", ".join(bad_false[1]),
@@ -491,10 +522,23 @@ def reserve_promise(res, facts):
     """when the reservation helper returns true, capacity() - len() >= additional: every cap it writes is
     related to NEW = len + additional (checked) by one of the recognised arguments"""
     b0 = reserve_helper(facts)
+    if b0 is None:
+        seen = set()
+        total = 0
+        for root, view in reserve_roots(facts):
+            for (key, ok, text, extra) in promise_verdicts(facts, view, root.id, min_writes=0):
+                total += 1
+                if (key, ok, text) in seen:
+                    continue
+                seen.add((key, ok, text))
+                (res.ok if ok else res.bad)(key, root.loc(), text + " (judged at the public entry point, helpers inlined)", **({} if not ok else {"nontrivial": True}))
+        if total < 4:
+            res.bad("reserve|promise|cap writes", "-", "only %d capacity writes found below reserve / try_reclaim: the rule would pass vacuously" % total)
+        return
     judged_on_views(res, facts, b0, lambda v: promise_verdicts(facts, v, b0.id))
 
 
-def promise_verdicts(facts, b, bid):
+def promise_verdicts(facts, b, bid, min_writes=4):
     out = []
     eb = ExprBuilder(b, facts, inline=True)
     cfg = cfg_of(b)
@@ -563,7 +607,7 @@ def promise_verdicts(facts, b, bid):
         else:
             out.append((key, False, "capacity is re-established as %s without relating it to len + additional: reserve(n)/try_reclaim(n) could return "
                                     "with capacity() - len() < n" % fmt_expr(C)[:100], None))
-    if cnt < 4:
+    if cnt < min_writes:
         out.append(("%s|promise|cap writes" % bid, False, "only %d capacity writes found in the reservation helper (expected >= 4): the rule would pass vacuously" % cnt, None))
     return out
 
